@@ -525,3 +525,20 @@ Theorem C03_fragment_one_instance :
   wf_b (FOne 97 [] (IEsc 96%Z) []) = false /\ wf_b (FOne 97 [] (IStrike []) []) = false.
 Proof. vm_compute. repeat split; reflexivity. Qed.
 Print Assumptions C03_fragment_one_instance.
+
+(* the HARD LINE BREAK written with a backslash (Proofs/BackslashBreak.v): l1, a backslash, a newline, l2 - both lines free of trigger
+   characters, not empty, not ending in a space - is the first line, one hard LineBreak holding the backslash, the second line:
+   LineBreak.pattern's second alternative evaluated exactly, EscapeSequence.pattern finding nothing (a newline cannot be escaped), the
+   scanner of the core tokens taking the backslash as an escape of the newline; bs_spans holds of all six configurations *)
+From Mistletoe Require Import Proofs.BackslashBreak.
+Theorem C03_backslash_break : forall types fn l1 l2,
+  bs_spans types = true -> bline_okb (l1, 0%nat) = true -> bline_okb (l2, 0%nat) = true ->
+  Inline.tokenize_inner types fn (l1 ++ [92%Z; 10%Z] ++ l2) = [RawText l1; LineBreak [92%Z] false; RawText l2].
+Proof. exact backslash_break. Qed.
+Print Assumptions C03_backslash_break.
+
+Theorem C03_backslash_break_hypotheses :
+  (map (fun c => bs_spans (cfg_span c)) [cfg_html; cfg_html_nohtml; cfg_markdown; cfg_latex; cfg_mathjax; cfg_default] = [true; true; true; true; true; true]) /\
+  (bline_okb ($"first line", 0%nat) = true) /\ (bline_okb ($"ends in a space ", 0%nat) = false).
+Proof. split; [exact bs_configs|]. vm_compute. split; reflexivity. Qed.
+Print Assumptions C03_backslash_break_hypotheses.
